@@ -155,7 +155,7 @@ func makeCfg(prof string, r *rng) WorldCfg {
 			c.Dev.Types[r.intn(len(c.Dev.Types))].Flags |= simvk.PropDeviceCoherent
 		}
 		return c
-	case "core", "core2", "core3":
+	case "core", "core2", "core3", "core4":
 		return coreCfg(prof, r)
 	}
 	return baseCfg(r, 3, 6, typePalette[:7])
@@ -191,6 +191,10 @@ func newGenerator(prof string, r *rng, maxOps int) *generator {
 		g.weights = []wop{{"alloc", 12}, {"palloc", 14}, {"allocm", 4}, {"free", 20}, {"rw", 5}, {"map", 3}, {"unmap", 3}, {"mkpool", 3},
 			{"rmpool", 1}, {"defragc", 24}, {"cbuf", 8}, {"cimg", 8}, {"dres", 10}, {"rawres", 4}, {"ares", 4}, {"bind", 4}, {"rdres", 2},
 			{"allocn", 2}, {"freen", 1}, {"stats", 1}, {"faultc", 2}, {"flush", 2}}
+	case "core4": // core3 with driver faults while a defragmentation run is active (failing commits inside BeginDefragPass)
+		g.weights = []wop{{"alloc", 12}, {"palloc", 14}, {"allocm", 8}, {"free", 20}, {"rw", 5}, {"map", 3}, {"unmap", 3}, {"mkpool", 3},
+			{"rmpool", 1}, {"defragc", 24}, {"cbuf", 6}, {"cimg", 6}, {"dres", 8}, {"rawres", 3}, {"ares", 3}, {"bind", 3}, {"rdres", 2},
+			{"allocn", 2}, {"freen", 1}, {"stats", 1}, {"fault", 3}, {"flush", 2}}
 	default:
 		g.prof = "basic"
 		g.weights = []wop{{"alloc", 40}, {"free", 30}}
@@ -733,7 +737,17 @@ func (g *generator) next(w *World) (Op, bool) {
 	}
 	// a pass in progress is driven to its end with high priority
 	if d := g.activeDefrag(w); d >= 0 && (w.defrag[d].inPass && g.r.chance(85) || g.r.chance(55)) {
-		if g.prof == "core3" {
+		if g.prof == "core4" && !w.defrag[d].inPass && w.pendingFault == nil && g.r.chance(35) {
+			// arm a vkMapMemory fault for the next BeginDefragPass: the commit of a move of a persistently mapped
+			// allocation into a block that is not mapped fails, and the planner goes on
+			k := g.r.pick(1, 1, 1, 2, 3)
+			sticky := 0
+			if g.r.chance(40) {
+				sticky = 1
+			}
+			return mkOp("fault", g.r.pick(2, 2, -1), k, simvk.ResMemoryMapFailed, sticky), true
+		}
+		if g.prof == "core3" || g.prof == "core4" {
 			return g.genDefragCore(w)
 		}
 		return g.genDefrag(w)
@@ -751,7 +765,7 @@ func (g *generator) next(w *World) (Op, bool) {
 			return g.next(w)
 		}
 	}
-	if g.prof == "core3" && g.emitted < 3 && g.r.chance(50) {
+	if (g.prof == "core3" || g.prof == "core4") && g.emitted < 3 && g.r.chance(50) {
 		g.script = g.defragPreamble(w)
 		if len(g.script) > 0 {
 			return g.next(w)
@@ -764,7 +778,13 @@ func (g *generator) next(w *World) (Op, bool) {
 			return g.next(w)
 		}
 	}
-	if w.pendingFault != nil && (g.prof == "core" || g.prof == "core2" || g.prof == "core3") && g.r.chance(75) {
+	if w.pendingFault != nil && g.activeDefrag(w) >= 0 && g.prof == "core4" && g.r.chance(70) {
+		// the armed fault is meant for the next pass
+		if op, ok := g.genDefragCore(w); ok {
+			return op, true
+		}
+	}
+	if w.pendingFault != nil && (g.prof == "core" || g.prof == "core2" || g.prof == "core3" || g.prof == "core4") && g.r.chance(75) {
 		// an armed fault is wasted on an op that makes no driver call: prefer ops that do
 		names := []string{"lalloc", "allocm", "map", "rw", "mkpoolt", "lalloc", "allocn", "cbuf"}
 		if g.prof == "core" {
@@ -874,7 +894,11 @@ func (g *generator) defragPreamble(w *World) []Op {
 	hv := w.typeFlags(t)&simvk.PropHostVisible != 0
 	for i := 0; i < n; i++ {
 		f := flags
-		if hv && r.chance(15) {
+		mp := 15
+		if g.prof == "core4" {
+			mp = 40 // persistently mapped sources make BeginDefragPass map the destination blocks
+		}
+		if hv && r.chance(mp) {
 			f |= fMapped
 		}
 		sz := size
@@ -1237,7 +1261,7 @@ func coreCfg(prof string, r *rng) WorldCfg {
 	if r.chance(20) {
 		c.LargeBlock = r.pick(64, 256) * kib // only matters for heaps above 1 GiB (none here): must stay unobservable
 	}
-	if prof == "core3" {
+	if prof == "core3" || prof == "core4" {
 		c.Dev.Granularity = r.pick(1, 1, 16, 64, 256, 512, 1024, 4096)
 	}
 	if prof != "core" && r.chance(75) {
